@@ -35,7 +35,7 @@ TABLE = [
 ]
 MS = [NONE, -5, 0, 10, 30, 300]
 POW = [NONE, -50, 0, 25, 50, 100, 150]
-TEV = [NONE, -100, 100, 2000]
+TEV = [NONE, -100, 100, 1500, 2000, 2500]      # 1500 / 2500: less than one second above a max_hold_duration of 1 s / 2 s
 STEPS = [100, 300, 1000]
 DEFV = [-5, 0, 10, 20, 45, 300, 2000]      # values of the placeholders behind the defaults
 MW = [NONE, 45, 495]                       # max_wait_ms (never a multiple of 10: no float ties with the busy time)
